@@ -117,7 +117,41 @@ def check(ctx, cls, pieces, how, host=None):
             ctx.check(c is None or (c.isdigit() and int(c) >= 1), ("C05", cls, "text:c"), f"text:c={c!r} in {xml!r}", case)
 
 
+def check_setter(ctx, cls, raw, inner, pieces, obj):
+    """the `text` setter writes raw character data; an element appended as an object and then strings appended: after the
+    last string append the whole content reads as the concatenation and is in normal form again"""
+    from odfdo import Element, Header, Link, Paragraph, Span
+
+    case = {"cls": cls, "raw": raw, "inner": inner, "pieces": list(pieces), "obj": obj, "how": "setter"}
+    ctx.ev()
+    ctx.count("setter-then-object-then-text")
+    whole = raw + inner + "".join(pieces)
+    if RE_NT.search(raw) or "\t" in raw or "\n" in raw:
+        ctx.nontrivial((cls, "setter", raw, inner, tuple(pieces), obj))
+    with ctx.guard(("C05", cls, "exception"), case):
+        e = {"Paragraph": lambda: Paragraph(""), "Header": lambda: Header(1, ""), "Span": lambda: Span("")}[cls]()
+        e.text = raw
+        e.append(Span(inner) if obj == "span" else Link("http://x/", text=inner))
+        for p_ in pieces:
+            e.append(p_)
+        if obj == "link":
+            return  # links render as [text](url) in inner_text: only the span form is judged on text
+        ctx.check(e.inner_text == whole, ("C05", cls, "inner_text"), f"{cls}: text={raw!r}, append(Span({inner!r})), append {list(pieces)!r} reports {e.inner_text!r}", case)
+        xml = e.serialize()
+        seen = odfread.ws_text(odfread.parse_fragment(xml))
+        ctx.check(seen == whole, ("C05", cls, "not-normal-form"),
+                  f"{xml!r} is read by an ODF consumer as {seen!r}, the text was {whole!r} (text setter, object append, string appends)", case)
+        back = Element.from_tag(xml)
+        ctx.check(back.inner_text == whole, ("C05", cls, "reparse-text"), f"{xml!r} re-parsed reports {back.inner_text!r}", case)
+
+
 def replay(case, ctx):
+    if case.get("how") == "setter":
+        try:
+            check_setter(ctx, case["cls"], case["raw"], case["inner"], case["pieces"], case["obj"])
+        except Abandon:
+            pass
+        return
     try:
         check(ctx, case["cls"], case["pieces"], case["how"], case.get("host"))
     except Abandon:
@@ -219,6 +253,19 @@ def run_shard(ctx):
         return t
 
     ctx.run_given(mk, ctx.budget(20000, 600000), salt=1)
+
+    def mk_setter():
+        raws = st.sampled_from(["Total:  ", " lead", "a\tb", "x\ny", "a  b", "plain", "trail ", "  ", "\t", "a \t b", ""])
+        @given(st.sampled_from(CLASSES), raws, st.sampled_from(["S", "in  ner", " s ", ""]),
+               st.lists(st.one_of(st.sampled_from(["z", " z", "z  ", "\t", "", " "]), piece), min_size=1, max_size=3), st.sampled_from(["span", "span", "link"]))
+        def t(cls, raw, inner, ps, obj):
+            try:
+                check_setter(ctx, cls, raw, inner, ps, obj)
+            except Abandon:
+                pass
+        return t
+
+    ctx.run_given(mk_setter, ctx.budget(3000, 60000), salt=2)
     if ctx.thorough:
         from lib.fuzz import run_campaign
 
